@@ -25,8 +25,6 @@ def queries(tier):
             if lst:
                 d['LIST'] = 1
             nm = 'list' if lst else 'vector'
-            if tier == 'quick' and n > 4 and lst:
-                continue
             q('sort[object-cmp,%s,n=%d]' % (nm, n), dict(d, MODE=1), unwind=n + 3)
             q('sort[less=procedure,%s,n=%d]' % (nm, n), dict(d, MODE=2), unwind=n + 3)
             if n >= 2 and (tier != 'quick' or n <= 4) and not lst:
